@@ -78,7 +78,7 @@ theorem C19_complete (d : DictFn) (picks : List (Option Nat)) (s : SS) (hw : s.w
 theorem C19_gen :
     Gen.sctpHeaderReads = ["msr.ReadAtLeast(b,HeaderLength,InvalidStreamID)"] ∧
     Gen.sctpHeaderPins = ["msr.SetCurrentStream(stream)"] ∧
-    Gen.sctpBodyReads = ["msr.ReadAtLeast(b,len(b),stream)"] ∧
+    Gen.sctpBodyReads = ["msr.ReadAtLeast(p,len(p),stream)"] ∧
     Gen.sctpAtLeastReads = ["msc.ReadAny(buf)", "msc.ReadStream(buf[n:],stream)"] ∧
     Gen.connResetsStream = ["msc.ResetCurrentStream()"] ∧
     Gen.sctpWriteStreamCalls = ["msc.SCTPWrite(b,info)"] ∧ Gen.HeaderLength = 20 := by decide
